@@ -195,6 +195,7 @@ def run(idx, rep, tier):
     rep.sample({"rule": "R1", "sequences": n, "ops": "add(name,src,content) | edit(src) | remove(name) | new-instance"})
     r2(idx, rep)
     r3(idx, rep)
+    K.guard_flags(idx, rep, "R3")
 
 
 DESTRUCTIVE = {
